@@ -18,6 +18,7 @@ def main():
     mod = runner.monitor_module(prop)
     rep = report.Report(prop, spec)
     rep.count("failed_library_calls_before_the_workload", failed)
+    rep.count("shards_run_under_python_-O", 0 if __debug__ else 1)
     from . import api
 
     api.check(rep, prop)
